@@ -48,6 +48,10 @@ CLAIMED = {
  'C11': dict(tech="TLC: counter-carrying hash object and BLAKE padding model-checked with symbolic compression; TLC trace validation recomputing every BLAKE-224..512 and BLAKE2b/2s digest from TLA+ transcriptions of the BLAKE submission and RFC 7693 (validated against official vectors and hashlib incl. all parameters)",
              text="BLAKE: length classes around 0, B-2w, B, 2B (quick) / every bit length 0..2B+8 (thorough), all L mod 8, salt classes, over-long bit lengths, counters preset across the word boundary.  BLAKE2: length grid 0..4 blocks, digest lengths (boundary / every), salt, personalization, fanout, depth, leaf length, node offset, node depth, inner length at range ends, out-of-range digest lengths rejected; singleton and fresh objects.  Content is seeded.",
              ref="DESIGN.md section 7 C11"),
+
+ 'C04': dict(tech="TLC: sponge/duplex design checked exhaustively over Keccak-f[25] (and f[50]) for every rate and every L <= 2r+2, pad10*1 for all rates <= 40; TLC trace validation of the real Keccak object, SHA3, SHAKE and duplex sequences against the bit-level FIPS 202 specification (round constants and rho offsets derived in TLA+)",
+             text="Exhaustive: the whole configuration space of Keccak[25] (quick) and Keccak[50] (thorough): every rate 0<r<b, every bit length 0..2r+2, both bit-order conventions.  Boundary grid for b in {50..1600}: rates incl. non-multiples of 8 and r<8, L mod r in {0,1,r-2,r-1}, L mod 8, data longer than the bit length, output lengths 1, r-1, r, r+1, 2r+3; module singletons; SHA3-224..512 and SHAKE128/256 around the rate boundary; duplex call sequences on one object.  Message content is seeded.",
+             ref="DESIGN.md section 7 C04"),
 }
 PENDING = "check not built yet in this tree (specification modules are being written; see DESIGN.md section 12 build order) - not claimed until its quick command runs clean"
 def main():
